@@ -20,15 +20,27 @@ use std::io::Write;
 use std::ops::Range;
 use std::pin::Pin;
 use std::task::Poll;
-use std::time::SystemTime;
+use std::time::{Duration, SystemTime};
 
 const MAX_DECIMAL_U64_BYTES: usize = 20; // u64::max_value().to_string().len()
+
+/// Truncates to whole seconds, the resolution of the HTTP-dates in `Last-Modified`,
+/// `If-Modified-Since` and `If-Unmodified-Since`.
+fn truncate_to_secs(t: SystemTime) -> SystemTime {
+    match t.duration_since(SystemTime::UNIX_EPOCH) {
+        Ok(d) => SystemTime::UNIX_EPOCH + Duration::from_secs(d.as_secs()),
+        Err(_) => t,
+    }
+}
 
 fn parse_modified_hdrs(
     etag: &Option<HeaderValue>,
     req_hdrs: &HeaderMap,
     last_modified: Option<SystemTime>,
 ) -> Result<(bool, bool), &'static str> {
+    // Compare at the resolution the client saw in `Last-Modified`; otherwise echoing that
+    // value back never matches an entity whose modification time has a sub-second part.
+    let last_modified = last_modified.map(truncate_to_secs);
     let precondition_failed = if !etag::any_match(etag, req_hdrs)? {
         true
     } else if req_hdrs.contains_key(header::IF_MATCH) {
